@@ -78,6 +78,19 @@ def run(ctx):
         r3.check(len(subs) >= 1, f"{m.module.relpath}::{m.qual}::via-call", f"submits through call({subs[0].detail!r})" if subs else "",
                  f"{cname}.submit_target does not submit through backends.utils.call", m.where)
 
+    # a failing state query must not be mistaken for "no job": it propagates
+    from .evalhelpers import eval_query_failure, eval_slurm_states
+    for mod, cname in (("gwf.backends.slurm", "SlurmOps"), ("gwf.backends.sge", "SGEOps"), ("gwf.backends.lsf", "LSFOps")):
+        out, m = eval_query_failure(ctx, mod, cname)
+        r3.check(out[0] == "raised" and out[1] == "BackendError", f"{m.module.relpath}::{m.qual}::query-failure", f"a failing {'/'.join(sorted(set(out[2]))) or 'query'} propagates as BackendError",
+                 f"with the scheduler's queue/accounting query failing, {cname}.get_job_states {out[0]} {out[1]!r}: tracked jobs that are still pending then look unknown, "
+                 "and the next run submits them a second time", m.where)
+    for failing in ("sacct", "squeue"):
+        _r, err, _q, _s, m = eval_slurm_states(ctx, 5, True, fail=failing)
+        r3.check(err is not None and err.startswith("BackendError"), f"{m.module.relpath}::{m.qual}::{failing}-failure", f"a failing {failing} alone propagates as BackendError",
+                 f"with only {failing} failing, SlurmOps.get_job_states yields {'a state map' if err is None else err} instead of raising BackendError: "
+                 "jobs the failed query would have reported look unknown and are submitted again", m.where)
+
     # ---------------- R4 durability point (D19a)
     r4 = ctx.rule("R4", "an accepted submission is made durable before the next one starts")
     tb_submit = idx.func(f"{BASE}:TrackingBackend.submit")
